@@ -537,7 +537,7 @@ c18!(c18_truncate_inv_grow200_unsync_opt, Optimistic, 1, 2, Some(200), 0, 4);
 
 /// history: a(A bytes) b(8 bytes) [c(rest) if FILL]; release a (becomes a free segment when A >= 16);
 /// truncate(n) with n symbolic; then one symbolic request.
-pub(crate) fn c18_hist<const A: u32, const FILL: bool>(fl: Freelist, unify: bool, nmax: usize, fixed: Option<usize>) {
+pub(crate) fn c18_hist<const A: u32, const FILL: bool>(fl: Freelist, unify: bool, nmax: usize, fixed: Option<usize>, fixed_m: Option<u32>) {
   const CAP: u32 = 64;
   let mut arena: unsync::Arena = Options::new().with_capacity(CAP).with_unify(unify).with_freelist(fl).with_minimum_segment_size(4).alloc::<unsync::Arena>().unwrap();
   let dofs = arena.data_offset() as u32;
@@ -580,8 +580,14 @@ pub(crate) fn c18_hist<const A: u32, const FILL: bool>(fl: Freelist, unify: bool
   assert!(unsafe { rd8(arena.raw_ptr(), x) } == before, "C18: every byte below allocated() unchanged (header, free list, data)");
   assert!(arena.get_u8(bo as usize).unwrap() == v, "C18: live data survives truncate");
   // afterwards allocations succeed exactly when they fit the new capacity, or the list serves them
-  let m: u32 = kani::any();
-  kani::assume(m >= 1 && m <= 100);
+  let m: u32 = match fixed_m {
+    Some(v) => v,
+    None => {
+      let v: u32 = kani::any();
+      kani::assume(v >= 1 && v <= 48);
+      v
+    }
+  };
   let g = do_alloc::<unsync::Arena, u8>(&arena, Kind::Bytes, m);
   let fits = a0 as u64 + m as u64 <= newcap as u64;
   // the segment made from a: header at the first 8-aligned offset in it
@@ -601,8 +607,8 @@ pub(crate) fn c18_hist<const A: u32, const FILL: bool>(fl: Freelist, unify: bool
   }
   kani::cover!(fixed.is_some() || n < a0, "floored at allocated");
   kani::cover!(fixed.is_some() || (n > CAP as usize && fits), "allocation in grown space");
-  kani::cover!(!fits && g.ok, "served by list after truncate");
-  kani::cover!(!fits && !g.ok, "refused after truncate");
+  kani::cover!(fixed_m.is_some() || (!fits && g.ok), "served by list after truncate");
+  kani::cover!(fixed_m.is_some() || (!fits && !g.ok), "refused after truncate");
   core::mem::forget(arena);
 }
 macro_rules! c18h {
@@ -610,13 +616,22 @@ macro_rules! c18h {
     #[kani::proof]
     #[kani::unwind(4)]
     fn $name() {
-      c18_hist::<$a, $fill>(Freelist::$fl, $unify, $nmax, $fixed);
+      c18_hist::<$a, $fill>(Freelist::$fl, $unify, $nmax, $fixed, None);
+    }
+  };
+  ($name:ident, $a:expr, $fill:expr, $fl:ident, $unify:expr, $nmax:expr, $fixed:expr, m $m:expr) => {
+    #[kani::proof]
+    #[kani::unwind(4)]
+    fn $name() {
+      c18_hist::<$a, $fill>(Freelist::$fl, $unify, $nmax, $fixed, Some($m));
     }
   };
 }
 // quick: concrete new sizes (below the cursor, equal to the capacity, growing), everything else symbolic
-// @h props=C18,C08 tier=quick timeout=1800 mem=16 bounds=CAP=64,unify,history=a(24)b(8)c(rest)-drop(a),n=100(grow) optcover=refused_after_truncate
-c18h!(c18_truncate_full_unify_opt_grow100, 24, true, Optimistic, true, 0, Some(100));
+// @h props=C18,C08 tier=quick timeout=1800 mem=28 bounds=CAP=64,unify,history=a(24)b(8)c(rest)-drop(a),n=80(grow),m=12(fits-grown-space)
+c18h!(c18_truncate_full_unify_opt_grow80_m12, 24, true, Optimistic, true, 0, Some(80), m 12);
+// @h props=C18 tier=thorough timeout=1800 mem=28 bounds=CAP=64,unify,history=a(24)b(8)c(rest)-drop(a),n=80(grow),m=17(one-byte-too-many)
+c18h!(c18_truncate_full_unify_opt_grow80_m17, 24, true, Optimistic, true, 0, Some(80), m 17);
 // @h props=C18 tier=quick timeout=1800 mem=16 bounds=CAP=64,plain,history=a(24)b(8)c(rest)-drop(a),n=10(floored-at-allocated)
 c18h!(c18_truncate_full_plain_pess_floor, 24, true, Pessimistic, false, 0, Some(10));
 // @h props=C18 tier=quick timeout=1800 mem=16 bounds=CAP=64,unify,history=a(20)b(8)-drop(a),n=48(shrink)
@@ -689,4 +704,70 @@ fn c09_ro_mutators_sync() {
 #[kani::unwind(3)]
 fn c09_ro_mutators_unsync() {
   c09_ro_mutators::<unsync::Arena>();
+}
+
+// =============================================================================================
+// C17 (plain layout): clear() restores the pristine arena also when the header lives outside the bytes
+// =============================================================================================
+pub(crate) fn c17_clear_plain<A: Allocator>(fl: Freelist, reserved: u32) {
+  const CAP: u32 = 80;
+  let mk_ = || Options::new().with_capacity(CAP).with_unify(false).with_freelist(fl).with_reserved(reserved).with_minimum_segment_size(8).alloc::<A>().unwrap();
+  let arena: A = mk_();
+  let fresh: A = mk_();
+  let dofs = arena.data_offset();
+  assert!(dofs == reserved as usize + 1, "C16: plain layout data offset = reserved + 1");
+  // a history that dirties the data area from its very first byte and leaves a free segment behind
+  let n1: u32 = kani::any();
+  let n2: u32 = kani::any();
+  kani::assume(n1 >= 1 && n1 <= 30 && n2 >= 1 && n2 <= 20);
+  let v: u8 = kani::any();
+  kani::assume(v != 0);
+  {
+    let mut a = arena.alloc_bytes(n1).unwrap();
+    let mut b = arena.alloc_bytes(n2).unwrap();
+    unsafe {
+      core::ptr::write_bytes(arena.raw_mut_ptr().add(a.offset()), v, n1 as usize);
+      core::ptr::write_bytes(arena.raw_mut_ptr().add(b.offset()), v, n2 as usize);
+      b.detach();
+    }
+    core::mem::forget(b);
+    drop(a); // not on top: free list / discarded
+  }
+  arena.increase_discarded(3);
+  let r: u32 = kani::any();
+  kani::assume(r < reserved.max(1));
+  let r_before = unsafe { rd8(arena.raw_ptr(), r) };
+  let res = unsafe { arena.clear() };
+  assert!(res.is_ok(), "C17: clear succeeds on a writable arena");
+  assert!(arena.allocated() == fresh.allocated() && arena.allocated() == dofs, "C17: clear puts the cursor back to data_offset");
+  assert!(arena.discarded() == 0, "C17: clear resets discarded()");
+  assert!(arena.data_offset() == fresh.data_offset() && arena.capacity() == fresh.capacity(), "C17: clear keeps layout and capacity");
+  assert!(arena.minimum_segment_size() == 8, "C17: clear keeps the minimum segment size in force");
+  let x: u32 = kani::any();
+  kani::assume(x as usize >= dofs && x < CAP);
+  assert!(unsafe { rd8(arena.raw_ptr(), x) } == 0, "C17: clear zeroes the whole data area");
+  assert!(unsafe { rd8(arena.raw_ptr(), x) == rd8(fresh.raw_ptr(), x) }, "C17: cleared arena indistinguishable from a fresh one");
+  if reserved > 0 {
+    assert!(unsafe { rd8(arena.raw_ptr(), r) } == r_before, "C17: clear leaves the reserved prefix untouched");
+  }
+  // and behaves like a fresh one afterwards: the free list is empty, so a request for everything is served from offset data_offset
+  let g = do_alloc::<A, u8>(&arena, Kind::Bytes, CAP - dofs as u32);
+  assert!(g.ok && g.bo as usize == dofs, "C17: after clear the whole data area is available as fresh space");
+  let g2 = do_alloc::<A, u8>(&arena, Kind::Bytes, 1);
+  assert!(!g2.ok, "C17: after clear the free list is empty");
+  kani::cover!(n1 >= 17, "a free segment existed before clear");
+  core::mem::forget(arena);
+  core::mem::forget(fresh);
+}
+// @h props=C17 tier=quick timeout=1200 bounds=CAP=80,plain-layout,reserved=0,history=2allocs+drop
+#[kani::proof]
+#[kani::unwind(4)]
+fn c17_clear_plain_unsync_opt() {
+  c17_clear_plain::<unsync::Arena>(Freelist::Optimistic, 0);
+}
+// @h props=C17 tier=quick timeout=1200 bounds=CAP=80,plain-layout,reserved=5,history=2allocs+drop
+#[kani::proof]
+#[kani::unwind(4)]
+fn c17_clear_plain_sync_pess_r5() {
+  c17_clear_plain::<sync::Arena>(Freelist::Pessimistic, 5);
 }
